@@ -141,5 +141,6 @@ def run(ck):
     ck.run_rule("C11.R1k", "reader/writer agreement on the '.internal<n>.' key grammar", 3, c11.rule_R1k)
     ck.run_rule("C02.R7w", "listed values are final: every symbol is evaluated before the listing", 1, c02.rule_closing_wait)
     ck.run_rule("C02.R1", "announced size == produced length: a listed label address is where the next byte lies", 40, c02.rule_R1)
+    ck.run_rule("C02.R7", "labels of the second, third ... linked file: each file starts at base + lengths of ALL files before it", 3, c02.rule_R7)
     from ..rules import climodel
     ck.run_rule("CLI", "main_cli over all output configurations: the listing beside the first output, named after it", 500, climodel.rule_cli, ("writes",))
